@@ -5,7 +5,10 @@ params:
             "pool"    : thread_pool(n).with_timeout(default) with scripted callables of given durations
             "ftimeout": f_timeout(input future, t), inputs completed by env threads
   jobs      list of dicts {T: timeout ticks, S: submit time, D: duration (0 never), C: cancellable,
-                           percall: bool, exc: bool, ucancel: time or None}
+                           percall: bool, exc: bool, ucancel: time or None,
+                           SD: ticks the delegate's own submit() takes (manual flavour)}
+The creation of the future that submit_timeout / f_timeout returns is observed through the creation of its lock
+(event FutureCreated): its deadline counts from there.
   horizon   ticks
 """
 from .. import engine as E
@@ -26,7 +29,8 @@ def build(p):
         from concurrent.futures import Future
         vals = {}
         if flavour == "manual":
-            plan = {j + 1: {"dur": jb["D"], "cancellable": jb.get("C", True)} for j, jb in enumerate(jobs)}
+            plan = {j + 1: {"dur": jb["D"], "cancellable": jb.get("C", True), "submit_delay": jb.get("SD", 0)}
+                    for j, jb in enumerate(jobs)}
             base = ManualExecutor(plan)
             ex = TimeoutExecutor(base, default_t / 1000.0, name="t")
         elif flavour == "pool":
@@ -39,10 +43,22 @@ def build(p):
             role_attr(ex, "_jobs_write", "jobs_event")
             role_attr(ex, "_shutdown._lock", "gate")
         futs = {}
+        submitting = {}     # thread name -> submission in progress
+
+        def on_lock(info):
+            # the returned future (a more_executors future class) is being constructed by a submitting thread
+            me = E.SCHED.me()
+            j = submitting.get(me.name) if me is not None else None
+            if j is not None and info[0].endswith("Future") and info[0] != "Future" and info[1].startswith("common.py"):
+                submitting.pop(me.name, None)
+                E.emit("FutureCreated", f=j)
+
+        E.SCHED.lock_hooks.append(on_lock)
 
         def sub(j):
             jb = jobs[j - 1]
             E.vsleep(jb["S"])
+            submitting["sub%d" % j] = j
             v = Val(j)
             vals[j] = v
             script = [("E", "x%d" % j)] if jb.get("exc") else [("V", v)]
